@@ -746,6 +746,7 @@ fn run_row_case(case: &RowCase, obs: &mut Obs) -> Result<(), Failure> {
 // ------------------------------------------------------------------------------------------ run
 
 pub fn run(ctx: &mut Ctx) {
+    ctx.enable_crash_sentinel();
     ctx.assume("ground truth: the ODS bytes produced by the harness' own square generator, its extension by ExtendedDataSquare::from_ods (C08 checks that encoder) and, for every accepted square, row/column roots recomputed with the harness' own sha2 NMT and compared with the header's DAH");
     ctx.assume("headers are built by lv_gen::chain::build_header around the (possibly modified) DAH; the decoder only reads header.dah, header.height() and header.app_version()");
     ctx.assume("a panic of the decoder is a violation (C09 says 'rejected without panicking'); the ROW sub-check (node half of C05) treats panics the same way because shrex responses are remote input");
